@@ -4,7 +4,7 @@ use crate::alloc_track;
 use crate::cases::{Case, Ct, Space};
 use crate::steps;
 use crate::targets::{CaseIn, Res, TKind};
-use grin_core::global::{self, ChainTypes};
+use grin_core::global;
 use serde_json::{json, Value};
 use std::cell::RefCell;
 use std::collections::BTreeMap;
@@ -65,20 +65,55 @@ fn raw_stdout(s: &str) {
 	}
 }
 
-pub struct Bounds(pub BTreeMap<String, (u64, u64)>);
+/// The allocation bounds of spec/Decode.tla, as printed by MC_Decode_gen (BOUNDS / FRAMES): per decoder and chain type
+/// (a, b, da) - `da` bounds a call that the decoder itself refused -, and per chain type and frame type
+/// (admit = the largest announced length the header check admits, a = the constant of the body's decoder).
+/// The worker uses them only to decide which calls are logged individually; the verdict is DecodeTrace's.
+pub struct Bounds {
+	pub dec: BTreeMap<String, (u64, u64, u64)>,
+	pub frames: BTreeMap<String, Vec<(u64, u64)>>,
+}
+/// first frame header of a codec input: (type, announced length), None if there is none (short input, foreign magic)
+pub fn first_frame(c: &Case, stream_codec: bool) -> Option<(u8, u64)> {
+	if !stream_codec || c.bytes.len() < 11 || c.bytes[..2] != c.ct.magic() {
+		return None;
+	}
+	let mut l = [0u8; 8];
+	l.copy_from_slice(&c.bytes[3..11]);
+	Some((c.bytes[2], u64::from_be_bytes(l)))
+}
 impl Bounds {
 	pub fn load(path: &str) -> Bounds {
 		let v: Value = serde_json::from_str(&std::fs::read_to_string(path).expect("bounds file")).expect("bounds json");
-		let mut m = BTreeMap::new();
+		let mut dec = BTreeMap::new();
+		let mut frames = BTreeMap::new();
 		for (k, x) in v.as_object().expect("bounds object") {
-			m.insert(k.clone(), (x["a"].as_u64().expect("a"), x["b"].as_u64().expect("b")));
+			if let Some(ct) = k.strip_prefix("frames@") {
+				let t: Vec<(u64, u64)> = x.as_array().expect("frames").iter().map(|f| (f["admit"].as_u64().expect("admit"), f["a"].as_u64().expect("a"))).collect();
+				frames.insert(ct.to_string(), t);
+			} else {
+				dec.insert(k.clone(), (x["a"].as_u64().expect("a"), x["b"].as_u64().expect("b"), x["da"].as_u64().unwrap_or_else(|| x["a"].as_u64().unwrap_or(0))));
+			}
 		}
-		Bounds(m)
+		Bounds { dec, frames }
 	}
-	pub fn of(&self, dec: &str, ct: Ct, len: u64) -> u64 {
+	/// bound of one finished call (Decode.tla `CallBound`)
+	pub fn of(&self, dec: &str, ct: Ct, len: u64, refused: bool, frame: Option<(u8, u64)>, consumed: u64) -> u64 {
 		let key_ct = format!("{}@{}", dec, ct.name());
-		let (a, b) = self.0.get(&key_ct).or_else(|| self.0.get(dec)).copied().unwrap_or((0, 0));
-		a + b * len
+		let (a, b, da) = self.dec.get(&key_ct).or_else(|| self.dec.get(dec)).copied().unwrap_or((0, 0, 0));
+		if dec == "Codec::read" {
+			if let (Some((ty, flen)), Some(t)) = (frame, self.frames.get(ct.name())) {
+				let (admit, fa) = t[(ty as usize).min(t.len() - 1)];
+				if flen > admit {
+					return 64 * 1024 + b * len;
+				}
+				if consumed < flen.saturating_add(22) {
+					return flen.min(admit) + fa + 64 * 1024 + b * len;
+				}
+			}
+			return a + b * len;
+		}
+		(if refused { da } else { a }) + b * len
 	}
 }
 
@@ -90,14 +125,13 @@ pub struct Outcome {
 	pub note: String,
 	/// the post-decode step that was in progress when the call panicked ("" = the decoder itself)
 	pub step: &'static str,
+	/// `Get*Segment` requests admitted during the call
+	pub served: Vec<crate::serve::Served>,
 }
 
 pub fn execute(space: &Space, c: &Case) -> Outcome {
 	let t = &space.targets[c.target];
-	global::set_local_chain_type(match c.ct {
-		Ct::Auto => ChainTypes::AutomatedTesting,
-		Ct::Main => ChainTypes::Mainnet,
-	});
+	global::set_local_chain_type(c.ct.chain_type());
 	let cin = CaseIn {
 		bytes: &c.bytes,
 		ver: c.ver,
@@ -107,10 +141,12 @@ pub fn execute(space: &Space, c: &Case) -> Outcome {
 	};
 	LAST_PANIC.with(|p| *p.borrow_mut() = None);
 	steps::reset();
+	crate::serve::reset();
 	alloc_track::begin();
 	let r = catch_unwind(AssertUnwindSafe(|| (t.run)(&cin)));
 	let peak = alloc_track::peak();
 	let maxreq = alloc_track::max_request();
+	let served = crate::serve::take();
 	match r {
 		Ok(res) => Outcome {
 			out: if res.ok { "ok" } else { "err" },
@@ -119,6 +155,7 @@ pub fn execute(space: &Space, c: &Case) -> Outcome {
 			maxreq,
 			note: String::new(),
 			step: "",
+			served,
 		},
 		Err(_) => {
 			let (loc, msg) = LAST_PANIC.with(|p| p.borrow_mut().take()).unwrap_or_default();
@@ -131,6 +168,7 @@ pub fn execute(space: &Space, c: &Case) -> Outcome {
 				maxreq,
 				note: format!("{} @ {}", msg, loc),
 				step,
+				served,
 			}
 		}
 	}
@@ -176,6 +214,11 @@ struct Sum {
 	worst_permille: u64,
 	wp: u64,
 	wl: u64,
+	/// the call with the worst peak / bound ratio: refused by the decoder?, first frame (type, announced length), consumed
+	wr: bool,
+	wfty: i64,
+	wflen: u64,
+	wc: u64,
 	maxpeak: u64,
 	reads: u64,
 	hp: u64,
@@ -189,14 +232,22 @@ pub fn clamp(x: u64) -> u64 {
 }
 
 pub fn begin_event(space: &Space, idx: usize, c: &Case) -> Value {
-	json!({"k": "Begin", "i": idx, "dec": space.targets[c.target].name, "rd": c.rd.name(), "ver": c.ver, "ct": c.ct.name(),
-		"stream": space.targets[c.target].kind == TKind::Stream, "len": c.bytes.len()})
+	let name = space.targets[c.target].name;
+	let fr = first_frame(c, name == "Codec::read");
+	json!({"k": "Begin", "i": idx, "dec": name, "rd": c.rd.name(), "ver": c.ver, "ct": c.ct.name(),
+		"stream": space.targets[c.target].kind == TKind::Stream, "len": c.bytes.len(),
+		"fty": fr.map(|f| f.0 as i64).unwrap_or(-1), "flen": fr.map(|f| clamp(f.1)).unwrap_or(0)})
+}
+
+/// the `Get*Segment` requests admitted during the call: kind, identifier height, bytes of the response body
+pub fn served_json(sv: &[crate::serve::Served]) -> Value {
+	Value::Array(sv.iter().map(|(k, h, n)| json!({"kind": k, "h": h, "resp": clamp(*n)})).collect())
 }
 
 fn flush_sums(space: &Space, w: &mut Nd, sums: &mut BTreeMap<(usize, &'static str, u32, &'static str), Sum>) {
 	for ((t, rd, ver, ct), s) in std::mem::take(sums) {
 		w.put(&json!({"k": "Sum", "dec": space.targets[t].name, "rd": rd, "ver": ver, "ct": ct, "n": s.n, "ok": s.ok, "err": s.err,
-			"post_ok": s.post_ok, "bytes": s.bytes, "reads": clamp(s.reads), "maxpeak": clamp(s.maxpeak), "wp": clamp(s.wp), "wl": s.wl, "hp": clamp(s.hp), "hl": s.hl, "seeds": s.seeds, "seeds_ok": s.seeds_ok}));
+			"post_ok": s.post_ok, "bytes": s.bytes, "reads": clamp(s.reads), "maxpeak": clamp(s.maxpeak), "wp": clamp(s.wp), "wl": s.wl, "wr": s.wr, "wfty": s.wfty, "wflen": clamp(s.wflen), "wc": clamp(s.wc), "hp": clamp(s.hp), "hl": s.hl, "seeds": s.seeds, "seeds_ok": s.seeds_ok}));
 	}
 	let counts = steps::take_counts();
 	if !counts.is_empty() {
@@ -217,6 +268,7 @@ pub fn run(space: &Space, bounds: &Bounds, from: usize, to: usize, out: &str, ba
 	let mut bad = Nd::create(bad_out);
 	let mut sums: BTreeMap<(usize, &'static str, u32, &'static str), Sum> = BTreeMap::new();
 	let mut near = 0u64;
+	let mut seen_served: std::collections::BTreeSet<(&'static str, u8)> = Default::default();
 	let mut seeds_failed: Vec<Value> = vec![];
 	// 64-bit hashes of the non-trivial calls (see `nontrivial`), merged and de-duplicated by the parent
 	let mut nt = BufWriter::new(File::create(format!("{}.nt", out)).expect("nt file"));
@@ -241,20 +293,34 @@ pub fn run(space: &Space, bounds: &Bounds, from: usize, to: usize, out: &str, ba
 		if nontrivial(space, &c, &o) {
 			nt.write_all(&case_hash(&c).to_le_bytes()).unwrap();
 		}
-		let bound = bounds.of(space.targets[c.target].name, c.ct, len);
+		let name = space.targets[c.target].name;
+		let frame = first_frame(&c, name == "Codec::read");
+		let refused = o.out == "err";
+		let bound = bounds.of(name, c.ct, len, refused, frame, o.res.consumed);
 		let stream = space.targets[c.target].kind == TKind::Stream;
 		let progress_ok = !stream || o.res.reads <= len + 1;
-		let suspicious = o.out == "panic" || o.peak > bound || o.res.consumed > len || !progress_ok;
+		// a frame the header check must refuse: exactly the 11 header bytes are consumed and nothing is delivered
+		let frame_ok = match (frame, bounds.frames.get(c.ct.name())) {
+			(Some((ty, flen)), Some(t)) if flen > t[(ty as usize).min(t.len() - 1)].0 => o.res.consumed == 11 && o.res.reads == 0,
+			_ => true,
+		};
+		// the first admission of every (kind, height) of a segment request is logged individually: the specification decides it
+		let mut notable = false;
+		for (k, h, _) in o.served.iter() {
+			notable |= seen_served.insert((*k, *h));
+		}
+		let suspicious = o.out == "panic" || o.peak > bound || o.res.consumed > len || !progress_ok || !frame_ok;
 		let is_near = !suspicious && o.peak > bound / 2;
-		if suspicious || single || (is_near && near < 500) {
+		if suspicious || single || notable || (is_near && near < 500) {
 			if is_near {
 				near += 1;
 			}
 			w.put(&begin_event(space, idx, &c));
 			w.put(&json!({"k": "End", "i": idx, "out": o.out, "consumed": clamp(o.res.consumed), "peak": clamp(o.peak),
-				"reads": clamp(o.res.reads), "maxreq": clamp(o.maxreq), "note": o.note, "step": o.step, "gen": c.origin["gen"]}));
+				"reads": clamp(o.res.reads), "maxreq": clamp(o.maxreq), "note": o.note, "step": o.step, "gen": c.origin["gen"],
+				"served": served_json(&o.served)}));
 			w.flush();
-			if suspicious && !single {
+			if (suspicious || notable) && !single {
 				bad.put(&case_json(space, idx, &c));
 				bad.flush();
 			}
@@ -287,6 +353,10 @@ pub fn run(space: &Space, bounds: &Bounds, from: usize, to: usize, out: &str, ba
 				s.worst_permille = pm;
 				s.wp = o.peak;
 				s.wl = len;
+				s.wr = refused;
+				s.wfty = frame.map(|f| f.0 as i64).unwrap_or(-1);
+				s.wflen = frame.map(|f| f.1).unwrap_or(0);
+				s.wc = o.res.consumed;
 			}
 		}
 		if c.expect_ok && o.out != "ok" || c.expect_post && !o.res.post_ok {
